@@ -372,9 +372,10 @@ impl DatagramSource {
             self.pending_closures
                 .extend(a.peers.into_iter().map(|peer| {
                     (
+                        // the flow's key, client to peer, which is how the pipe knows it
                         forwarder::UdpDatagramMeta {
-                            source: peer,
-                            destination: *source,
+                            source: *source,
+                            destination: peer,
                         },
                         io::Error::new(error.kind(), error.to_string()),
                     )
